@@ -897,7 +897,8 @@ pub fn main(args: &[String], kind: &str) -> i32 {
 				}
 				v
 			};
-			let expected = crate::rawdump::expected_replay(&im.dir, case.cols.len(), &index_gens);
+			let (expected_set, ties) = crate::rawdump::expected_replay_set(&im.dir, case.cols.len(), &index_gens);
+			let expected = expected_set[0].clone();
 			// the same question for the Coq model: the raw bytes of every log file of the image
 			let mut log_case: Vec<u64> = Vec::new();
 			if tr.damage {
@@ -906,7 +907,9 @@ pub fn main(args: &[String], kind: &str) -> i32 {
 					.unwrap_or_default();
 				files.sort();
 				let total: usize = files.iter().map(|f| f.len()).sum();
-				if total < 6000 {
+				if ties {
+					*dist.entry("replay-id-cases-skipped-tie-of-first-ids".into()).or_insert(0) += 1;
+				} else if total < 6000 {
 					log_case = vec![13, 2, case.cols.len() as u64, files.len() as u64];
 					for f in &files {
 						log_case.push(f.len() as u64);
@@ -915,6 +918,22 @@ pub fn main(args: &[String], kind: &str) -> i32 {
 				}
 			}
 			let replay_obs: Mutex<Option<Vec<u64>>> = Mutex::new(None);
+			if let Ok(keep) = std::env::var("VERIF_KEEP_FAIL") {
+				// debugging aid: the whole image as it is before the open
+				let pre = PathBuf::from(&keep).join("pre");
+				let _ = std::fs::remove_dir_all(&pre);
+				let _ = std::fs::create_dir_all(&pre);
+				if let Ok(rd) = std::fs::read_dir(&im.dir) {
+					for e in rd.flatten() {
+						Tracker::copy_sparse(&e.path(), &pre.join(e.file_name()));
+					}
+				}
+			}
+			let kept_logs: Vec<(String, Vec<u8>)> = if std::env::var("VERIF_KEEP_FAIL").is_ok() {
+				std::fs::read_dir(&im.dir).map(|rd| rd.flatten().filter(|e| e.file_name().to_string_lossy().starts_with("log")).map(|e| (e.file_name().to_string_lossy().to_string(), std::fs::read(e.path()).unwrap_or_default())).collect()).unwrap_or_default()
+			} else {
+				vec![]
+			};
 			REPLAYED.lock().unwrap().clear();
 			// known design limits of the log format (finding F18): nothing records which records the
 			// tables already hold, so (a) a replay that stops BEFORE an already enacted record re-applies
@@ -930,10 +949,44 @@ pub fn main(args: &[String], kind: &str) -> i32 {
 				};
 				let applied = REPLAYED.lock().unwrap().clone();
 				*replay_obs.lock().unwrap() = Some(applied.clone());
-				if tr.damage && applied != expected {
+				if tr.damage && !expected_set.contains(&applied) {
 					return Err(format!("replay-applied-wrong-records the replay applied records {applied:?}, the log bytes justify exactly {expected:?}"))
 				}
-				let got = read_vector(&db, &case, &book);
+				// under F18 the tables can hold a cyclic value chain and a read of it never returns: read on a
+				// helper thread, which is abandoned (with its handle of the database) if it does not come back
+				let (db, got) = if f18 {
+					let shared = std::sync::Arc::new(db);
+					let theirs = shared.clone();
+					let keys = case.keys.clone();
+					let (tx, rx) = std::sync::mpsc::channel();
+					std::thread::spawn(move || {
+						let mut raw = Vec::new();
+						for (c, ks) in keys.iter().enumerate() {
+							for k in ks {
+								raw.push(theirs.get(c as u8, k).map_err(|_| ()));
+							}
+						}
+						drop(theirs);
+						let _ = tx.send(raw);
+					});
+					match rx.recv_timeout(std::time::Duration::from_secs(20)) {
+						Ok(raw) => {
+							let got: Vec<u64> = raw.into_iter().map(|r| match r { Ok(Some(x)) => book.token_of(&x), Ok(None) => 0, Err(_) => 0xeeee_eeee }).collect();
+							let mut shared = shared;
+							let db = loop {
+								match std::sync::Arc::try_unwrap(shared) {
+									Ok(db) => break db,
+									Err(s) => { shared = s; std::thread::yield_now(); },
+								}
+							};
+							(db, got)
+						},
+						Err(_) => return Err("damaged-log-mixes-states a read of the recovered state did not return within 20 s (a value chain that runs in a circle)".into()),
+					}
+				} else {
+					let got = read_vector(&db, &case, &book);
+					(db, got)
+				};
 				let mut matched = None;
 				for m in lo..=std::cmp::min(hi, ncommits) {
 					if spec_vector(&case, &spec_after(&case, &accepted, m)) == got {
@@ -1001,7 +1054,27 @@ pub fn main(args: &[String], kind: &str) -> i32 {
 					let cls = if f18 { "damaged-log-mixes-states" } else { "recovery-panic" };
 					verdict = Err(format!("{cls} opening or using the {} image panicked: {} [{}]", im.kind, m.chars().take(120).collect::<String>(), desc))
 				},
-				Ok(Err(e)) => verdict = Err(format!("{e} [{} image: {}]", im.kind, desc)),
+				Ok(Err(e)) => {
+					// every consequence of finding F18 (an older prefix replayed over newer tables) is that finding:
+					// also a structure that only breaks when the recovered database is used again
+					let e = if f18 && !e.starts_with("damaged-log-mixes-states") && !e.starts_with("replay-applied-wrong-records") {
+						format!("damaged-log-mixes-states (latent) {e}")
+					} else {
+						e
+					};
+					if let Ok(keep) = std::env::var("VERIF_KEEP_FAIL") {
+						// debugging aid: keep the log files of the failing image as they were BEFORE the open
+						let k = PathBuf::from(keep).join(format!("{}", e.split(' ').next().unwrap_or("x")));
+						let _ = std::fs::create_dir_all(&k);
+						for (n, d) in &kept_logs {
+							let _ = std::fs::write(k.join(n), d);
+						}
+						let _ = std::fs::write(k.join("why.txt"), format!("{e} [{} image: {}] enacted {} records {:?} expected {:?} opts {:?}", im.kind, desc, im.enacted, im.record_ids, expected, case.cols.iter().map(|c| (c.btree, c.rc, c.preimage, c.uniform, c.compression)).collect::<Vec<_>>()));
+						let _ = std::fs::remove_dir_all(k.join("image"));
+						let _ = std::fs::rename(PathBuf::from(std::env::var("VERIF_KEEP_FAIL").unwrap()).join("pre"), k.join("image"));
+					}
+					verdict = Err(format!("{e} [{} image: {}]", im.kind, desc))
+				},
 				Ok(Ok(())) => (),
 			}
 		}
